@@ -35,6 +35,19 @@ func c04Flags(combo int, g *gspec.Grammar) []string {
 	}
 	if hasStr(f, "-optimize-grammar") {
 		f = append(f, "-alternate-entrypoints="+joinComma(g.Entries))
+		// documented: -optimize-parser removes the state store "if no state change expression is
+		// present in the grammar". When -optimize-grammar drops the only rules that hold state
+		// blocks, code blocks that read c.state no longer compile - by that rule, not by a
+		// defect: such grammars keep the state store.
+		if hasStr(f, "-optimize-parser") && g.HasState && !g.StateReachable(append([]string{g.Rules[0].Name}, g.Entries...)) {
+			var k []string
+			for _, x := range f {
+				if x != "-optimize-parser" {
+					k = append(k, x)
+				}
+			}
+			f = k
+		}
 	}
 	return f
 }
